@@ -50,7 +50,9 @@ CHECKS = {
  "C07": ("Coq theorems C07_validate_iff / C07_rejects_nonempty / C07_on_decoded: for every bundle in the decoder's image (C07_decoded_shape, by inverting "
          "the stream-parser model) outside the stale reserved masks, the transcription of Bundle::validate returns no error iff the rule list of the "
          "property text (raw bit tests, NoDup block numbers, at-most-once singleton types, payload present, status-report restriction, creation-time-zero "
-         "rule) holds; K-val channel on bytes of the Python reference encoder over the rule space with a Python transcription of the rules as oracle.",
+         "rule) holds; K-val channel on bytes of the Python reference encoder over the rule space with a Python transcription of the rules as oracle. "
+         "C07_tie_block_flags / C07_tie_bundle_flags: the flag validations of the compiled crate on every u8 block flag word and every combination of the 14 "
+         "bundle flag bits (tables regenerated from /repo on every run) equal the model's, outside the don't-care masks - kernel-checked over all rows.",
          "bitflags from_bits_truncate/contains semantics modelled; HashSet modelled as list membership.", "DESIGN.md section 6 C07"),
  "C08": ("Coq theorems C08_update_exact / C08_update_total / C08_frame: for every bundle in the decoder's image, every node, every u128 residence time and "
          "every clock reading not before 2000, the transcription of update_extensions returns Ok(false) exactly when hop count+1 > limit, age+residence > "
@@ -58,7 +60,9 @@ CHECKS = {
          "= node and nothing else changed; no panic in checked or wrapping arithmetic; K-ops channel: all boundary (limit,count) pairs and a boundary "
          "cross product for age/residence/lifetime/creation/now under the clock hook, debug and release builds. C08_code_structure: the function written the "
          "way bundle.rs writes it (block selected by extension_block_by_type_mut, then hop_count_get/_increase/_exceeded, previous_node_update, "
-         "bundle_age_get/_update applied in place: Model/Api.v) equals the function those theorems are about; both models answer the same lines (OPS / OPSA).",
+         "bundle_age_get/_update applied in place: Model/Api.v) equals the function those theorems are about; both models answer the same lines (OPS / OPSA). "
+         "C08_tie_hop_count: for EVERY (limit, count) in u8 x u8 the compiled crate's hop_count_increase/_exceeded/_get (table regenerated from /repo on every "
+         "run, Gen/Tables.v) equal the model's - kernel-checked over all 65536 rows.",
          "clock >= 2000-01-01 (dtn_time_now); std Duration::as_millis.", "DESIGN.md section 6 C08"),
  "C09": ("Coq theorems C09_unique / C09_unique_from / C09_complete / C09_sequential*: NoDup of returned (time, seq) pairs for every number of threads, calls, "
          "clock readings and every interleaving of the instrumented operations (invariant over the schedule), plus the non-overlapping clause; "
@@ -98,7 +102,8 @@ CHECKS = {
 "C11_constructors_valid (every new_*_block call with in-range arguments is an admissible argument and passes extension validation), "
 "C11_primary_builder (refuses exactly the null destination, copies every field), C11_std_bundle_api (the unwrap inside new_std_payload_bundle), "
 "C11_block_ops (laws of hop_count_increase / bundle_age_update / previous_node_update and their getters); K-api channel: each of these functions "
-"with every setter called or not, against the model and against what the function documents.",
+"with every setter called or not, against the model and against what the function documents. C11_tie_crc_code: set_crc_type on EVERY u8 code, read "
+"back through crc_type/has_crc/bytes, equals the model's crc_of_type (table regenerated from the compiled crate on every run).",
 "start state must be inside the C01 domain extended to unknown CRC types (validate alone accepts CanonicalData::Unknown under a known block type, which does not round-trip: "
 "C11_ex_unknown_typed); admissible arguments = Model/OpSeq.v op_ok; clock >= 2000-01-01.", "DESIGN.md section 6 C11"),
  "C12": ("Coq theorems C12_record_roundtrip (every normal-form administrative record — status reports with any number of status items of the three "
@@ -162,7 +167,8 @@ CHECKS = {
          "humantime 2.4.0 format_rfc3339 and std Duration/SystemTime arithmetic are transcribed, not verified; clock >= 2000-01-01 for the now clause.",
          "DESIGN.md section 6 C17"),
  "C18": ("Coq theorems C18_unhex_hex / C18_hex_unhex / C18_rejects / C18_total about the model of hexify/unhexify (all byte strings, all strings), with the "
-         "slicing panic and the lenient from_str_radix kept as partial primitives behind the guard; K-hex channel: exhaustive short inputs + seeded random.",
+         "slicing panic and the lenient from_str_radix kept as partial primitives behind the guard; K-hex channel: exhaustive short inputs + seeded random, every length up to 130. C18_tie_hexify / "
+         "C18_tie_unhexify: the compiled crate's hexify on every byte and unhexify on every two-character ASCII string (tables regenerated on every run) equal the model's.",
          "u8::from_str_radix and str slicing are modelled; inputs are valid UTF-8 (&str).", "DESIGN.md section 6 C18"),
  "C19": ("Coq theorem C19_faults_rejected: for every well-formed bundle and every fault of Spec/Faults.v (the property's classes as data with "
          "positions: missing / one extra item in primary, canonical, timestamp, ipn pair, hop-count pair; EID extra item / missing scheme; CRC "
